@@ -14,6 +14,7 @@ import (
 	"os"
 	"path/filepath"
 	"sort"
+	"strconv"
 	"strings"
 	"time"
 
@@ -126,10 +127,11 @@ func paddedNamesSchedule() schedule {
 type nfObject struct {
 	id    string
 	set   []string // arguments after SET k id
-	model []string // geoenc request ("" = outside the model: open finding)
+	model []string // geometry for the geoenc request (nil = outside the model: open finding)
 }
 
-func nfNum(s string) string {
+// nfNum: a coordinate as the model driver wants it; axis: 90 (latitude), 180 (longitude), 0 (not checked)
+func nfNum(s string, axis float64) string {
 	switch strings.ToLower(s) {
 	case "nan":
 		return "nan"
@@ -137,6 +139,9 @@ func nfNum(s string) string {
 		return "+inf"
 	case "-inf":
 		return "-inf"
+	}
+	if v, err := strconv.ParseFloat(s, 64); err == nil && axis > 0 && (v < -axis || v > axis) {
+		return "!" + model.H(s)
 	}
 	return model.H(s)
 }
@@ -148,25 +153,29 @@ func nonFiniteObjects() []nfObject {
 		if len(a) == 3 {
 			kind = "pointz"
 		}
-		o.model = []string{"geoenc", kind}
-		for _, x := range a {
-			o.model = append(o.model, nfNum(x))
+		o.model = []string{kind}
+		for i, x := range a {
+			o.model = append(o.model, nfNum(x, []float64{90, 180, 0}[i]))
 		}
 		return o
 	}
 	b := func(id string, a ...string) nfObject {
-		o := nfObject{id: id, set: append([]string{"BOUNDS"}, a...), model: []string{"geoenc", "rect"}}
-		for _, x := range a {
-			o.model = append(o.model, nfNum(x))
+		o := nfObject{id: id, set: append([]string{"BOUNDS"}, a...), model: []string{"rect"}}
+		for i, x := range a {
+			o.model = append(o.model, nfNum(x, []float64{90, 180, 90, 180}[i]))
 		}
 		return o
 	}
 	return []nfObject{
 		p("p1", "nan", "5"), p("p2", "1", "inf"), p("p3", "-inf", "5"), p("p4", "1", "2", "inf"), p("p5", "1", "2", "nan"),
 		p("p6", "nan", "nan"), p("p7", "3", "4"), p("p8", "3", "4", "7.5"), p("p9", "Infinity", "-Inf", "NaN"),
+		// positions outside -90..90 / -180..180: POINT and BOUNDS take them, the GeoJSON reader does not when
+		// the server runs with REQUIREVALID
+		p("q1", "100", "200"), p("q2", "100", "200", "5"), p("q3", "-90.5", "10"), p("q4", "10", "180.25"), p("q5", "90", "-180", "1e9"),
 		b("b1", "1", "2", "nan", "4"), b("b2", "-inf", "-inf", "inf", "inf"), b("b3", "1", "2", "3", "4"), b("b4", "-90", "-180", "90", "+Inf"),
-		{id: "o1", set: []string{"OBJECT", `{"type":"Point","coordinates":[1e999,5]}`}, model: []string{"geoenc", "point", model.H("5"), "+inf"}},
-		{id: "o2", set: []string{"OBJECT", `{"type":"Point","coordinates":[1,5,-1e999]}`}, model: []string{"geoenc", "pointz", model.H("5"), model.H("1"), "-inf"}},
+		b("c1", "-100", "-200", "100", "200"), b("c2", "-90", "-180", "90", "180"), b("c3", "10", "10", "95", "20"),
+		{id: "o1", set: []string{"OBJECT", `{"type":"Point","coordinates":[1e999,5]}`}, model: []string{"point", model.H("5"), "+inf"}},
+		{id: "o2", set: []string{"OBJECT", `{"type":"Point","coordinates":[1,5,-1e999]}`}, model: []string{"pointz", model.H("5"), model.H("1"), "-inf"}},
 	}
 }
 
@@ -203,10 +212,17 @@ func nonFiniteDetail(c *srv.Conn) string {
 	return strings.Join(lines, "")
 }
 
-func nonFiniteWitness(r *hx.Result, cfg hx.Config, drv *model.Driver, name string, objs []nfObject, overflow bool) {
+func nonFiniteWitness(r *hx.Result, cfg hx.Config, drv *model.Driver, name string, objs []nfObject, overflow, requireValid bool) {
 	sigBase := "shrink-nonfinite"
 	if overflow {
 		sigBase = "shrink-object-overflow-coordinate"
+	}
+	rv := "0"
+	if requireValid {
+		// every server of this scenario runs with REQUIREVALID (read once, at start-up)
+		rv = "1"
+		os.Setenv("REQUIREVALID", "1")
+		defer os.Unsetenv("REQUIREVALID")
 	}
 	dir := filepath.Join(cfg.Work, name)
 	os.RemoveAll(dir)
@@ -225,7 +241,7 @@ func nonFiniteWitness(r *hx.Result, cfg hx.Config, drv *model.Driver, name strin
 		cmds = append(cmds, strings.Join(c, " "))
 		before[o.id] = nfView(in.c, "nf", o.id)
 	}
-	cs := map[string]interface{}{"scenario": "non-finite-coordinates", "accepted": cmds}
+	cs := map[string]interface{}{"scenario": "non-finite-coordinates", "accepted": cmds, "REQUIREVALID": requireValid}
 	r.Count("nonfinite/"+name+"/"+fmt.Sprint(len(accepted)), len(accepted) > 0)
 	r.Dist("scenario:non-finite-coordinates")
 	if len(accepted) == 0 {
@@ -248,7 +264,7 @@ func nonFiniteWitness(r *hx.Result, cfg hx.Config, drv *model.Driver, name strin
 		if o.model == nil {
 			continue
 		}
-		want := strings.Split(drv.Ask(o.model...), " | ")
+		want := strings.Split(drv.Ask(append([]string{"geoenc", rv}, o.model...)...), " | ")
 		rec := byID[o.id]
 		got := "?no record"
 		for i := 3; i < len(rec); i++ {
@@ -282,7 +298,7 @@ func nonFiniteWitness(r *hx.Result, cfg hx.Config, drv *model.Driver, name strin
 	if err != nil {
 		in = &inst{s: in.s, dir: dir}
 		r.Fail(hx.Failure{Kind: "oracle", Signature: sigBase + "-does-not-load",
-			What: "accepted: " + strings.Join(cmds, "; ") + "; AOFSHRINK; restart: the server does not start on the rewritten log: " + lastLines(err.Error(), 160), Case: cs})
+			What: fmt.Sprintf("REQUIREVALID=%v; accepted: ", requireValid) + strings.Join(cmds, "; ") + "; AOFSHRINK; restart: the server does not start on the rewritten log: " + lastLines(err.Error(), 160), Case: cs})
 		return
 	}
 	in = in2
@@ -373,5 +389,143 @@ func legacyCrash(r *hx.Result, cfg hx.Config, drv *model.Driver, cp string, idx 
 		r.Fail(hx.Failure{Kind: "oracle", Signature: "shrink-crash-" + cp + "-legacy-file",
 			What: fmt.Sprintf("legacy file aof = [%s] migrated at the first start; then %s; AOFSHRINK dies at %s (files: %s); restart serves the %s dataset: %d acknowledged lines missing, %d extra", strings.Join(legacy, "; "), strings.Join(al, "; "), cp, state, class, len(a), len(b)),
 			Case: cs, Impl: map[string]interface{}{"only_acknowledged": clip(a, 6), "only_recovered": clip(b, 6)}})
+	}
+}
+
+// ---------------------------------------------------------------- 4. a follower starts over under the rewrite
+
+// followerReset: a server with a dataset of its own (model: Init) has its rewrite parked (before the
+// second section or before the final one) when it is told to FOLLOW a leader with other data: the
+// log is too short to compare checksums, so it starts over (log recreated, dataset dropped — model:
+// reset) and receives the leader's log (model: one writer per command). The rewrite is released.
+// The leader goes away, the follower is killed, restarted and promoted (FOLLOW no one): it must
+// serve what it served before, and its log must be the model's.
+func followerReset(r *hx.Result, cfg hx.Config, drv *model.Driver, parkAt string, idx int) {
+	ldir := filepath.Join(cfg.Work, fmt.Sprintf("fl%d", idx))
+	fdir := filepath.Join(cfg.Work, fmt.Sprintf("ff%d", idx))
+	os.RemoveAll(ldir)
+	os.RemoveAll(fdir)
+	leader, err := srv.Start(ldir)
+	if err != nil {
+		panic(err.Error())
+	}
+	defer leader.Kill()
+	lc := leader.MustDial()
+	defer lc.Close()
+	in := startInst(cfg.Work, fdir)
+	defer func() { in.close() }()
+	drv.Ask("new")
+	var own, theirs []mcmd
+	for i := 0; i < 40; i++ {
+		own = append(own, mcmd{op: "set", a: "a", b: fmt.Sprintf("i%02d", i), v: "mine"})
+	}
+	own = append(own, mcmd{op: "set", a: "c", b: "i00", v: "mine"}, mcmd{op: "set", a: "shared", b: "i00", v: "mine"})
+	theirs = []mcmd{{op: "set", a: "b", b: "i00", v: "leader"}, {op: "set", a: "b", b: "i01", v: "leader", fs: []fu{{"speed", &fvPool[0]}}},
+		{op: "set", a: "shared", b: "i01", v: "leader"}, {op: "del", a: "b", b: "i00"}}
+	cs := map[string]interface{}{"scenario": "follower-reset", "rewrite_parked_at": parkAt,
+		"own_dataset": "a/i00..i39, c/i00, shared/i00", "leader_log": []string{theirs[0].String(), theirs[1].String(), theirs[2].String(), theirs[3].String()}}
+	for _, m := range theirs {
+		lc.MustDo(m.real()...)
+	}
+	for _, m := range own {
+		in.c.MustDo(m.real()...)
+		drv.Ask(m.model()...)
+	}
+	problem := ""
+	done := false
+	in.noSwapWait = true // a rewrite that gives up leaves its -shrink file behind
+	_, e := in.shrinkWith("start,"+parkAt, func(ev event) bool {
+		switch {
+		case ev.kind == "start":
+			drv.Ask("begin")
+		case ev.kind == parkAt && !done:
+			done = true
+			// from here on the rewrite runs through to its final section
+			in.g.ask("arm final")
+			if v := in.c.MustDo("FOLLOW", "127.0.0.1", fmt.Sprint(leader.Port)); v.IsErr() {
+				problem = "FOLLOW: " + v.String()
+				return false
+			}
+			// the model's rewrite is where the server's is parked
+			for g, i := drv.Ask("gate"), 0; i < 5000 && !strings.HasPrefix(g, parkAt+" "); i++ {
+				g = drv.Ask("step")
+			}
+			drv.Ask("reset")
+			for _, m := range theirs {
+				drv.Ask(m.model()...)
+			}
+			// caught up: reads are answered again
+			ok := false
+			for i := 0; i < 200 && !ok; i++ {
+				v, err := in.c.Do("KEYS", "*")
+				ok = err == nil && !v.IsErr()
+				if !ok {
+					time.Sleep(25 * time.Millisecond)
+				}
+			}
+			if !ok {
+				problem = "the follower did not catch up with the leader"
+				return false
+			}
+		}
+		return true
+	})
+	if problem != "" || (e != "" && e != "stopped") {
+		r.Fail(hx.Failure{Kind: "correspondence", Signature: "shrink-follower-schedule-not-reached", What: problem + " " + e, Case: cs, Impl: in.s.LogTail(300)})
+		return
+	}
+	// the model's rewrite: through its scan to the final section, which gives up
+	g := drv.Ask("gate")
+	for i := 0; i < 5000 && g != "final - -"; i++ {
+		g = drv.Ask("step")
+	}
+	drv.Ask("final")
+	live := objDump(in.c)
+	mlive := sortedModelDump(drv.Ask("live"))
+	mrep := sortedModelDump(drv.Ask("breplayed"))
+	mfile := drv.Ask("bfile")
+	if mfile == "-" {
+		mfile = ""
+	}
+	recs, rerr := readAOF(aofPath(fdir))
+	var implRecs []string
+	for _, rec := range recs {
+		implRecs = append(implRecs, recCanonLog(rec))
+	}
+	// the leader is gone; the follower dies, comes back and is promoted
+	lc.Close()
+	leader.Kill()
+	in.c.Close()
+	in.c = nil
+	in.s.Kill()
+	in.dead()
+	in2, serr := startInstE(cfg.Work, fdir)
+	if serr != nil {
+		r.Fail(hx.Failure{Kind: "oracle", Signature: "shrink-new-file-does-not-load", What: "follower restart: " + lastLines(serr.Error(), 200), Case: cs})
+		in = &inst{s: in.s, dir: fdir}
+		return
+	}
+	in = in2
+	in.c.MustDo("FOLLOW", "no", "one")
+	restarted := objDump(in.c)
+	r.Count("follower-reset/"+parkAt, true)
+	r.Dist("scenario:follower-reset")
+	r.TracesImpl++
+	r.Sample(44, cs)
+	if rerr != nil || strings.Join(implRecs, ",") != mfile {
+		a, b := diffLines(strings.Join(implRecs, "\n"), strings.ReplaceAll(mfile, ",", "\n"))
+		r.Fail(hx.Failure{Kind: "correspondence", Signature: "shrink-model-file", What: "the follower's log after the start-over and the end of the rewrite differs from the model's (the leader's commands, nothing of the rewrite)", Case: cs, Impl: clip(a, 8), Model: clip(b, 8)})
+	}
+	if live != mlive {
+		r.Fail(hx.Failure{Kind: "correspondence", Signature: "shrink-model-live", What: "the follower's dataset differs from the model's", Case: cs, Impl: live, Model: mlive})
+	}
+	if restarted != mrep {
+		r.Fail(hx.Failure{Kind: "correspondence", Signature: "shrink-model-replayed", What: "the promoted follower's dataset after restart differs from the model's replay", Case: cs, Impl: restarted, Model: mrep})
+	}
+	if live != restarted {
+		a, b := diffLines(strings.ReplaceAll(live, ",", "\n"), strings.ReplaceAll(restarted, ",", "\n"))
+		r.Fail(hx.Failure{Kind: "oracle", Signature: "shrink-follower-reset-restart-mismatch",
+			What: "server with its own dataset (a/i00..i39, c/i00, shared/i00); AOFSHRINK parked at the " + parkAt + " gate; FOLLOW a leader whose log is [" + theirs[0].String() + "; " + theirs[1].String() + "; " + theirs[2].String() + "; " + theirs[3].String() + "] (start-over: dataset dropped, log recreated); caught up; rewrite released; leader gone; SIGKILL; restart; FOLLOW no one: live-only " + unhexLines(clip(a, 3)) + " restart-only " + unhexLines(clip(b, 4)),
+			Case: cs, Impl: map[string]interface{}{"only_live": clip(a, 8), "only_after_restart": clip(b, 8)}})
 	}
 }
